@@ -2,6 +2,7 @@
 //! Every sub-command reads TLC-generated vectors (ndjson) and/or draws seeded inputs, drives the
 //! real library, and writes ndjson records that TLC trace specifications evaluate.
 
+mod capturemod;
 mod configmod;
 mod crammod;
 mod diffmod;
@@ -25,6 +26,8 @@ fn main() {
         "diff-probe" => diffmod::probe(&args),
         "rules-replay" => rulesmod::replay(&args),
         "md-replay" => mdmod::replay(&args),
+        "capture-replay" => capturemod::replay(&args),
+        "capture-big" => capturemod::big(&args),
         "shell-replay" => shellmod::replay(&args),
         "render-replay" => rendermod::replay(&args),
         "yaml-replay" => yamlmod::replay(&args),
